@@ -2,4 +2,4 @@ From Coq Require Import ZArith NArith List Extraction ExtrOcamlBasic.
 From FEC Require Import Models.FileScanM Models.FileIndexIOM.
 Extraction Language OCaml.
 Set Extraction Output Directory ".".
-Extraction "c09_x.ml" open_log load load_legacy save fresh file_frames parse_records to_raw enc_records read_all index_offsets Z.of_N.
+Extraction "c09_x.ml" open_log open_log_max load load_legacy save fresh file_frames parse_records to_raw enc_records read_all index_offsets Z.of_N.
